@@ -198,20 +198,31 @@ func (p *pep440Extension) init(input string) error {
 		if i == start {
 			break
 		}
+		covered := false
+		if n := len(p.version.num); n > 0 && p.version.num[n-1] == wildcard {
+			// Whatever follows a wildcard is covered by it: "1.*.3" is "1.*".
+			covered = true
+		}
 		switch input[start:i] {
 		case "∞":
-			p.version.addNum(infinity) // TODO: This should be enabled by a boolean.
+			if !covered {
+				p.version.addNum(infinity) // TODO: This should be enabled by a boolean.
+			}
 		case "*":
 			if len(p.version.num) == 0 {
 				return fmt.Errorf("illegal wildcard as first component in `%s`", input)
 			}
-			p.version.addNum(wildcard)
+			if !covered {
+				p.version.addNum(wildcard)
+			}
 		default:
 			num, err := parseNum(input[start:i])
 			if err != nil {
 				return err
 			}
-			p.version.addNum(value(num))
+			if !covered {
+				p.version.addNum(value(num))
+			}
 		}
 		if i == len(input) || input[i] != '.' {
 			break
